@@ -20,7 +20,10 @@ PID = "C08"
 LEVEL = "proof"
 REQUIRED_THEOREMS = [
     "trace_sorted", "handle_times_strictly_increasing", "handle_times_on_lattice", "handled_state_is_iterate",
-    "stop_serves_all_due", "stop_ends_at_stop_time", "stop_reason_reported", "all_finalized",
+    "pending_window_invariant", "served_exactly_once_within_half_step", "frame_count", "frame_count_floor",
+    "frame_count_general", "storage_frame_count", "recorded_frames_are_calls",
+    "stop_serves_all_due", "final_stop_serves_all_due", "stop_ends_at_stop_time", "stop_reason_reported",
+    "all_finalized", "corner_scheduled_time_at_t_end_missed", "extra_frame_not_at_final_time",
 ]
 RULE = ("pairs of runs (stop-free, then with injected stop requests placed on calls of the stop-free trace) "
         "with 1-4 trackers (callback / StorageTracker+MemoryStorage / DataTracker; constant, fixed, logarithmic, "
@@ -122,6 +125,30 @@ def place_stops(rng, hist, case, real):
     return case2
 
 
+# the corner found while proving `frame_count_general` (Lean: corner_scheduled_time_at_t_end_missed):
+# t_end = N*dt + 1e-6*dt and a scheduled time exactly at t_end.  Deterministic probe, strict monitor.
+CORNER_PROBE = [(1.0, 1.000001, 1.000001), (0.5, 2.0000005, 2.0000005), (0.25, 1.00000025, 1.00000025),
+                (1.0, 1.5000005, 3.000001)]
+
+
+def corner_probe(ctx):
+    for dt, D, T in CORNER_PROBE:
+        case = {"numbers": "F", "dt": dt, "t_start": 0.0, "t_end": T, "u0": 0.0, "eq": "one", "solver": "euler",
+                "backend": "numpy", "jit": False, "N": None, "delta": 0.0, "cells": 1,
+                "trackers": [{"kind": "storage", "sched": {"kind": "constant", "dt": D, "t_start": None}, "stops": []}]}
+        real = ctrl.execute(case)
+        ctx.count(case, nontrivial=True, leg="corner-probe")
+        ctx.hist("corner probe", "t_end = N*dt + 1e-6*dt, scheduled time at t_end")
+        if real.get("error"):
+            ctx.disagree("correspondence", case, "run completes", real["error"], "corner probe raised")
+            continue
+        ctx.monitor_evals += 1
+        for what, obs, exp in ctrl.monitor_trackers(case, real):
+            ctx.monitor_fail("corner-probe", case, obs, exp, what,
+                             key={"what": "every scheduled time <= t_end is served",
+                                  "corner": "t_end = t_final + 1e-6*dt"})
+
+
 def monitors(ctx, case, real):
     if isinstance(real, str) or real.get("error"):
         return
@@ -164,6 +191,7 @@ def run(ctx):
                         ctx.hist("trackers served at the stop time", served)
                 ctrl.check_run(ctx, case, real, batch, pending)
                 monitors(ctx, case, real)
+    corner_probe(ctx)
     answers = batch.run()
     batch2 = LeanBatch(ctx.workdir)
     retry = ctrl.resolve(ctx, pending, answers, batch2)
